@@ -131,7 +131,19 @@ template <class T>
 IMATH_HOSTDEVICE IMATH_CONSTEXPR14 inline T
 Line3<T>::distanceTo (const Line3<T>& line) const IMATH_NOEXCEPT
 {
-    T d = (dir % line.dir) ^ (line.pos - pos);
+    //
+    // The distance is the component of (line.pos - pos) along the common
+    // normal of the two lines: the cross product of the directions has
+    // to be normalized.  For (nearly) parallel lines there is no common
+    // normal; every point of the other line is then at the same distance.
+    //
+
+    Vec3<T> n = dir % line.dir;
+    T       l = n.length ();
+
+    if (l <= std::numeric_limits<T>::epsilon ()) return distanceTo (line.pos);
+
+    T d = (n ^ (line.pos - pos)) / l;
     return (d >= 0) ? d : -d;
 }
 
